@@ -2691,7 +2691,12 @@ where
                 if packet.return_code() == ConnectReturnCode::Accepted {
                     self.status = ConnectionStatus::Connected;
                     if packet.session_present() {
-                        events.extend(self.send_stored());
+                        let resent = self.send_stored();
+                        let any_sent = !resent.is_empty();
+                        events.extend(resent);
+                        if any_sent {
+                            self.send_post_process(&mut events);
+                        }
                     } else {
                         self.clear_store_related();
                     }
@@ -2776,7 +2781,14 @@ where
                     }
 
                     if packet.session_present() {
-                        events.extend(self.send_stored());
+                        let resent = self.send_stored();
+                        let any_sent = resent
+                            .iter()
+                            .any(|e| matches!(e, GenericEvent::RequestSendPacket { .. }));
+                        events.extend(resent);
+                        if any_sent {
+                            self.send_post_process(&mut events);
+                        }
                     } else {
                         self.clear_store_related();
                     }
